@@ -1,9 +1,140 @@
-import Gimli.Model.Die
-/-! # C02 — placeholder while the correspondence is brought up (replaced below) -/
-namespace Gimli.Props.C02
-open Gimli Gimli.Die
+import Gimli.Lemmas.Die
+import Gimli.Lemmas.DieForest
+import Gimli.Lemmas.Abbrev
+/-!
+# C02 — The DIE forest is reported exactly as encoded, by every navigation API
 
-theorem raw_new_offset (input : Bytes) (off : Nat) : (Raw.new input off).nextOffset = off := by
-  simp [Raw.new, Raw.nextOffset]
+Property theorems only (helper lemmas: `Gimli/Lemmas/{Die,DieForest,Abbrev}.lean`). The Model
+functions (`Gimli/Model/{Die,Abbrev}.lean`) mirror `src/read/unit.rs` and `src/read/abbrev.rs`
+and are tied to them by the correspondence run on every check.
+
+Vocabulary. `Spec.Forest` is the abstract forest, `Forest.encodeUnit f pad` the DWARF encoding
+of its entries followed by `pad` null bytes, `Forest.listingUnit off f pad` the exact list of
+(unit offset, depth, tag, children flag) — null entries included — that a faithful reader reports
+when the body starts at unit offset `off`. `ForestOK ctx f` says that the unit's abbreviation
+table (`ctx.abbrevs`) resolves every entry's code to a declaration with that entry's tag and
+children flag and that the entry's attribute bytes are an encoding of the declared attributes
+(which is what C03 provides); it is the well-formedness hypothesis, for *any* abbreviation-code
+assignment, forest shape, attribute content and encoding parameters.
+-/
+namespace Gimli.Props.C02
+open Gimli Gimli.Attr Gimli.Abbrev Gimli.Die Gimli.Spec Gimli.Spec.Forest
+
+/-! ## (1) raw entry reading reports exactly the depth-first listing -/
+
+/-- **`raw_is_dfs`.** Reading the body of a well-formed unit entry by entry
+(`while !entries.is_empty() { entries.read_entry(..)? }`) yields exactly the depth-first list of
+(offset, depth, tag, children flag) of the encoded forest, null entries and trailing padding
+included, and then ends normally — for every forest, padding, start offset and any fuel of at
+least `length + 1` (so the loop bound is never hit). -/
+theorem raw_is_dfs (ctx : Ctx) (f : Forest) (hok : ForestOK ctx f) (pad off fuel : Nat)
+    (hfuel : (encodeUnit f pad).length + 1 ≤ fuel) :
+    ∃ es, es.map Entry.item = listingUnit off f pad ∧
+      rawAll ctx fuel (Raw.new (encodeUnit f pad) off) = (es, .ok ()) :=
+  rawAll_unit ctx f hok pad off fuel hfuel
+
+/-- the same inside any surrounding input: a forest is read as its listing and the reader is
+left exactly behind it, at the same depth (this is the induction that carries everything else) -/
+theorem raw_is_dfs_prefix (ctx : Ctx) (f : Forest) (hok : ForestOK ctx f) (k off : Nat) (depth : Int)
+    (rest : Bytes) :
+    ∃ es, es.map Entry.item = listing off depth f ∧
+      rawAll ctx (count f + k) ⟨encode f ++ rest, off + (encode f ++ rest).length, depth⟩ =
+        (es ++ (rawAll ctx k ⟨rest, off + (encode f ++ rest).length, depth⟩).1,
+          (rawAll ctx k ⟨rest, off + (encode f ++ rest).length, depth⟩).2) :=
+  rawAll_forest ctx f hok k off depth rest
+
+/-- `read_abbreviation` + `skip_attributes` (the other documented way to use `EntriesRaw`)
+reports the same entries at the same offsets and depths — by C03's `skip_eq_read`. Holds for
+every input on which the reading loop ends normally, well formed or not. -/
+theorem rawskip_eq (ctx : Ctx) (n : Nat) (r : Raw) (es : List Entry)
+    (h : rawAll ctx n r = (es, .ok ())) :
+    rawSkipAll ctx n r = (es.map Entry.strip, .ok ()) :=
+  rawSkipAll_of_rawAll ctx n r es h
+
+/-! ## (2) the cursor styles report the same forest -/
+
+/-- `EntriesCursor::next_entry` in a loop is the raw loop: identical entries, offsets, depths and
+ending — for every input and fuel. -/
+theorem entry_cursor_eq (ctx : Ctx) (fuel : Nat) (c : Cursor) :
+    entryAll ctx fuel c = rawAll ctx fuel c.raw :=
+  entryAll_eq_rawAll ctx fuel c
+
+/-- **`dfs_cursor_eq`.** `EntriesCursor::next_dfs` in a loop reports exactly the raw listing
+without its null entries, and ends the same way (normally or with the same error) — for every
+input, well formed or not. -/
+theorem dfs_cursor_eq (ctx : Ctx) (n : Nat) (r : Raw) (es : List Entry) (en : Out Unit)
+    (h : rawAll ctx n r = (es, en)) (hd : en ≠ .diverge) (m : Nat) (cur : Entry) (hm : n ≤ m) :
+    dfsAll ctx m ⟨r, cur⟩ = (es.filter (fun e => !e.isNull), en) :=
+  dfsAll_of_rawAll ctx n r es en h hd m cur hm
+
+/-- … hence on a well-formed unit: the non-null items of the depth-first listing, in order -/
+theorem dfs_cursor_forest (ctx : Ctx) (f : Forest) (hok : ForestOK ctx f) (pad off fuel : Nat)
+    (hfuel : (encodeUnit f pad).length + 1 ≤ fuel) :
+    ∃ es, es.map Entry.item = (listingUnit off f pad).filter (fun i => !i.isNull) ∧
+      dfsAll ctx fuel (Cursor.new (encodeUnit f pad) off) = (es, .ok ()) := by
+  obtain ⟨es, hl, hr⟩ := rawAll_unit ctx f hok pad off fuel hfuel
+  refine ⟨es.filter (fun e => !e.isNull), ?_, ?_⟩
+  · rw [← hl, List.filter_map]
+    rfl
+  · exact dfsAll_of_rawAll ctx fuel _ es _ hr (by simp) fuel _ (Nat.le_refl _)
+
+/-! ## (3) positioned reads -/
+
+/-- **`entry_at_offset_eq`.** `UnitHeader::entry(abbrevs, offset)` at the offset of any entry of
+the listing returns that entry (its tag and children flag, depth 0 as documented); at the
+offset of a null entry it returns `NoEntryAtGivenOffset`. -/
+theorem entry_at_offset_eq (ctx : Ctx) (h : UnitHeader) (f : Forest) (pad : Nat) (hok : ForestOK ctx f)
+    (hbuf : h.entriesBuf = encodeUnit f pad) (i : Item) (hi : i ∈ listingUnit h.headerSize f pad) :
+    (i.tag = 0 → h.entry ctx i.offset = .err .rNoEntryAtGivenOffset) ∧
+    (i.tag ≠ 0 → ∃ e, h.entry ctx i.offset = .ok e ∧ e.item = ⟨i.offset, 0, i.tag, i.children⟩) :=
+  entry_at_item ctx h f pad hok hbuf i hi
+
+/-- the same through `entries_tree(abbrevs, Some(offset))?.root()` -/
+theorem tree_root_at_offset_eq (ctx : Ctx) (h : UnitHeader) (f : Forest) (pad : Nat) (hok : ForestOK ctx f)
+    (hbuf : h.entriesBuf = encodeUnit f pad) (i : Item) (hi : i ∈ listingUnit h.headerSize f pad) :
+    (i.tag = 0 → (h.entriesTree i.offset >>= fun t => t.rootNode ctx) = .err .rNoEntryAtGivenOffset) ∧
+    (i.tag ≠ 0 → ∃ t, (h.entriesTree i.offset >>= fun t => t.rootNode ctx) = .ok t ∧
+      t.entry.item = ⟨i.offset, 0, i.tag, i.children⟩) :=
+  tree_root_at_item ctx h f pad hok hbuf i hi
+
+/-- and `range_from(offset..)` (which `entries_raw`, `entries_at_offset`, `entries_tree` start
+from) yields the body from that item on, so every traversal started there sees the suffix -/
+theorem range_from_offset (ctx : Ctx) (h : UnitHeader) (f : Forest) (pad : Nat) (hok : ForestOK ctx f)
+    (hbuf : h.entriesBuf = encodeUnit f pad) (i : Item) (hi : i ∈ listingUnit h.headerSize f pad) :
+    ∃ tl, h.rangeFrom i.offset = .ok tl ∧ StartsAt ctx i tl :=
+  rangeFrom_item ctx h f pad hok hbuf i hi
+
+/-! ## (4) abbreviation lookup -/
+
+/-- **`abbrev_get_insert`.** Let `ds` be the declarations that `Abbreviations::parse` reads from
+`bs` (in order, up to the null abbreviation). If their codes are pairwise distinct, parsing
+succeeds and `get c` returns, for every `c`, exactly the declaration carrying code `c` (`none`
+if there is none) — whatever the codes are: sequential, permuted, sparse, or anywhere up to
+2^64. If some code occurs twice, parsing fails with `DuplicateAbbreviationCode`. -/
+theorem abbrev_get_insert (bs : Bytes) (ds : List Abbreviation)
+    (h : parseDecls (bs.length + 1) bs = .ok ds) :
+    (((ds.map (·.code)).Nodup) →
+      ∃ t, Abbreviations.parse bs = .ok t ∧ ∀ c, t.get c = ds.find? (fun a => a.code = c)) ∧
+    ((¬ (ds.map (·.code)).Nodup) → Abbreviations.parse bs = .err .rDuplicateAbbreviationCode) := by
+  obtain ⟨hl, hz⟩ := parseLoop_of_parseDecls (bs.length + 1) .empty bs ds h
+  have hspec := insertAll_spec ds [] .empty
+    (by intro c; simp [lookup, Abbreviations.get, Abbreviations.empty, mapGet]) hz (by simp)
+  simp only [List.nil_append] at hspec
+  unfold Abbreviations.parse
+  constructor
+  · intro hnd
+    obtain ⟨t, hins, hget⟩ := hspec.1 hnd
+    exact ⟨t, by rw [hl, hins], hget⟩
+  · intro hnd
+    rw [hl, hspec.2 hnd]
+
+/-- the storage level: inserting a code that `get` does not find succeeds and afterwards `get`
+finds exactly it in addition; inserting one that `get` finds fails (dense vector or map, for
+any code) -/
+theorem insert_get (t : Abbreviations) (a : Abbreviation) (h0 : a.code ≠ 0) :
+    (t.get a.code = none →
+      ∃ t', t.insert a = some t' ∧ ∀ c, t'.get c = if c = a.code then some a else t.get c) ∧
+    ((t.get a.code).isSome → t.insert a = none) :=
+  ⟨insert_some_of_get_none t a h0, insert_none_of_get_some t a h0⟩
 
 end Gimli.Props.C02
